@@ -98,10 +98,12 @@ pub fn assume(c: bool) {
 #[cfg(not(kani))]
 pub fn assume(c: bool) {
     if !c {
-        eprintln!("VERIF-REPLAY-ASSUME-FAILED");
-        std::process::exit(97);
+        // caught by the replay driver (mod.rs): counts as "not a reproduction"
+        std::panic::panic_any(AssumeFailed);
     }
 }
+#[cfg(not(kani))]
+pub struct AssumeFailed;
 
 /// Reachability witness (vacuity guard). No-op natively.
 #[macro_export]
